@@ -488,7 +488,7 @@ func scenDurations(st *ekit.Stats, tier string) {
 				if hung {
 					kind = "hang"
 				}
-				st.Fail("durations:"+c.name+":"+v, kind, in, "bare integer %s must mean %s second(s): %s", v, v, bad)
+				st.Fail("durations:"+c.name+":"+v, kind, in, "duration value %s (bare integer = seconds), life time lower bound and delivery: %s", v, bad)
 			})
 		}
 	}
